@@ -31,6 +31,54 @@ theorem recordStatesGen_eq (P : Project) (g : G) (cfg : Cfg) (w : World) (t : Na
     recordStatesGen P g cfg w t = recordStates P g cfg w t := by
   simp [recordStatesGen, recordStates, updateStatesSkipsDryRun, neighboursGen_eq]
 
+/-! ### the row loop of update_states_in_database -/
+
+theorem upsertGen_eq (db : DB) (t v h : Nat) : upsertGen db (rowKeyGen t v) h = insert db (tv t, v) h := by
+  unfold upsertGen rowKeyGen
+  cases lookup db (if updateRowKey == ["task", "node"] then (tv t, v) else (v, tv t)) <;>
+    simp [updateRowKey, upsertAddsWhenAbsent, upsertOverwritesWhenPresent]
+
+theorem updateRowsGen_ok (P : Project) (g : G) (w0 : World) (t : Nat) : ∀ (vs : List Nat) (w : World),
+    (updateRowsGen P w0 t w vs).2 = (updateStates P g w t vs).2
+  | [], _ => rfl
+  | v :: vs, w => by
+    unfold updateRowsGen updateStates
+    cases hs : stateOf P w v with
+    | none => rfl
+    | some h => simp only [upsertGen_eq]; exact updateRowsGen_ok P g w0 t vs _
+
+theorem updateRowsGen_eq (P : Project) (g : G) (w0 : World) (t : Nat) : ∀ (vs : List Nat) (w : World),
+    (∀ v ∈ vs, (stateOf P w v).isSome = true) → updateRowsGen P w0 t w vs = updateStates P g w t vs
+  | [], _, _ => rfl
+  | v :: vs, w, h => by
+    unfold updateRowsGen updateStates
+    cases hs : stateOf P w v with
+    | none => have := h v (by simp); rw [hs] at this; cases this
+    | some x =>
+      simp only [upsertGen_eq]
+      exact updateRowsGen_eq P g w0 t vs _ (fun u hu => h u (by simp [hu]))
+
+/-- On the reachable calls (every neighbour has a state — guaranteed by the teardown checks / persist's `all(all_states)`)
+the interpreted row loop is the model's `updateStates`. -/
+theorem updateStatesGen_eq (P : Project) (g : G) (w : World) (t : Nat) (vs : List Nat)
+    (h : ∀ v ∈ vs, (stateOf P w v).isSome = true) : updateStatesGen P g w t vs = updateStates P g w t vs :=
+  updateRowsGen_eq P g w t vs w h
+
+/-- Whether the call succeeds is the same in all cases. -/
+theorem updateStatesGen_ok (P : Project) (g : G) (w : World) (t : Nat) (vs : List Nat) :
+    (updateStatesGen P g w t vs).2 = (updateStates P g w t vs).2 := updateRowsGen_ok P g w t vs w
+
+/-- When the call fails nothing is recorded (one transaction), while the older model clause keeps the rows before the
+failing one: the two differ only in that unreachable case. -/
+theorem updateStatesGen_fail (P : Project) (g : G) (w : World) (t : Nat) : ∀ (vs : List Nat) (w' : World),
+    (updateRowsGen P w t w' vs).2 = false → (updateRowsGen P w t w' vs).1 = w
+  | [], _, h => by cases h
+  | v :: vs, w', h => by
+    unfold updateRowsGen at h ⊢
+    cases hs : stateOf P w' v with
+    | none => simp [Generated.rowsSingleTransaction]
+    | some x => simp only [hs] at h ⊢; exact updateStatesGen_fail P g w t vs _ h
+
 /-! ### the loop of execute.pytask_execute_task_setup -/
 
 @[simp] theorem toScan_raised : ScanG.raised.toScan = .missing := rfl
